@@ -565,3 +565,68 @@ func writeStats() {
 	os.MkdirAll(outDir, 0o755)
 	os.WriteFile(filepath.Join(outDir, fmt.Sprintf("stats-%d.json", shard)), b, 0o644)
 }
+
+// ---------------------------------------------------------------- watchdog
+
+// Watchdog reports a case that does not terminate: Enter/Leave bracket each
+// evaluation; if one evaluation lasts longer than limit the case is saved as a
+// violation (key <sub>/hang) and the process exits with status 1 after
+// writing its statistics. It is the only place where time is an oracle; the
+// limit is seven orders of magnitude above the normal cost.
+type Watchdog struct {
+	sub   string
+	limit time.Duration
+	mu    sync.Mutex
+	cur   []byte
+	seq   uint64
+	since time.Time
+}
+
+func NewWatchdog(sub string, limit time.Duration) *Watchdog {
+	w := &Watchdog{sub: sub, limit: limit}
+	go w.loop()
+	return w
+}
+
+func (w *Watchdog) Enter(input []byte) {
+	w.mu.Lock()
+	w.cur = input
+	w.seq++
+	w.since = time.Now()
+	w.mu.Unlock()
+}
+
+func (w *Watchdog) Leave() {
+	w.mu.Lock()
+	w.cur = nil
+	w.seq++
+	w.mu.Unlock()
+}
+
+func (w *Watchdog) loop() {
+	for {
+		time.Sleep(w.limit / 10)
+		w.mu.Lock()
+		cur, since := w.cur, w.since
+		w.mu.Unlock()
+		if cur == nil || time.Since(since) < w.limit {
+			continue
+		}
+		dir := filepath.Join(root, "replays", Property)
+		os.MkdirAll(dir, 0o755)
+		file := filepath.Join(dir, fmt.Sprintf("%s-hang-s%d-%d.json", sanitize(w.sub), seed, shard))
+		doc := map[string]any{
+			"property": Property, "sub": w.sub, "key": w.sub + "/hang",
+			"message": fmt.Sprintf("evaluation did not terminate within %v", w.limit),
+			"tier":    tier, "seed": seed, "shard": shard, "case": map[string]any{"bytes": fmt.Sprintf("%x", cur)},
+		}
+		b, _ := json.MarshalIndent(doc, "", " ")
+		os.WriteFile(file, b, 0o644)
+		mu.Lock()
+		violations[w.sub+"/hang"] = violationRec{Sub: w.sub, Key: w.sub + "/hang", Replay: file, Msg: "evaluation did not terminate"}
+		mu.Unlock()
+		fmt.Fprintf(os.Stderr, "VERIF-VIOLATION property=%s sub=%s key=%s replay=%s\n", Property, w.sub, w.sub+"/hang", file)
+		writeStats()
+		os.Exit(1)
+	}
+}
